@@ -87,16 +87,25 @@ var lengthChangingRunes = func() []rune {
 
 // entityWord: a word written (partly) with character references: named ones in any casing, numeric ones for
 // letters whose lower-case form changes length, glued to ordinary letters
+// httpsEntityWord: a rewritten word ("https") one of whose letters is an upper-case letter given as a character
+// reference, the others in either case
+func httpsEntityWord(r *rng) string {
+	w := []byte("https")
+	k := r.intn(len(w))
+	ref := fmt.Sprintf(r.pick([]string{"&#%d;", "&#x%x;"}), int(w[k])-32)
+	pre, post := string(w[:k]), string(w[k+1:])
+	if r.chance(1, 2) {
+		pre, post = strings.ToUpper(pre), strings.ToUpper(post)
+	}
+	return pre + ref + post + r.pick([]string{"://example.org/x", "", "://a.b/https"})
+}
+
 func entityWord(r *rng) string {
 	pre := r.pick([]string{"", "", "stra", "caf", "na", "x", "Re"})
 	post := r.pick([]string{"", "", "e", "ve", "s", "X"})
 	switch r.intn(6) {
 	case 5:
-		// a rewritten word ("https") one of whose letters is an upper-case letter given as a character reference
-		w := []byte("https")
-		k := r.intn(len(w))
-		ref := fmt.Sprintf(r.pick([]string{"&#%d;", "&#x%x;"}), int(w[k])-32)
-		return string(w[:k]) + ref + string(w[k+1:]) + r.pick([]string{"://example.org/x", "", "://a.b/https"})
+		return httpsEntityWord(r)
 	case 0, 1:
 		return pre + "&" + entityNames[r.intn(len(entityNames))] + ";" + post
 	case 2:
